@@ -204,6 +204,7 @@ func wireEncCase(ctx *Ctx, t *tree.Item) {
 		}
 		// the public writer API (Encoder.Struct/Integer/…/Bitmask), not only ttlv.Value, is an output path too
 		wireAPICase(ctx, line, t, got)
+		wireAnyCase(ctx, line, t)
 	}
 	ctx.Add(line, impl, t.Size() > 1 || t.Kind == tree.KBig, "C01,C03")
 	// the same tree through a REUSED encoder (after other messages and Clear) must give the same bytes
@@ -635,6 +636,7 @@ func runWire(ctx *Ctx) {
 		wireEncCase(ctx, t)
 		wireDecCase(ctx, t.Encode(), "large")
 	}
+	wireProbeCases(ctx)
 	// deep nesting: structure chains well beyond the depth random trees reach
 	depths := []int{31, 32, 33, 63, 64, 65, 100, 255, 256, 257, 600}
 	if ctx.Thor {
